@@ -1,11 +1,12 @@
 #!/usr/bin/env python3
-# dev/seedmeta.py <seed dir name> "<pkgs>" "<check result>" — record what was confirmed for a seeded change.
+# dev/seedmeta.py <seed dir name> "<pkgs>" "<check result>" [round] — record what was confirmed for a seeded change.
 import json, sys
 name, pkgs, res = sys.argv[1:4]
+rnd = int(sys.argv[4]) if len(sys.argv) > 4 else 2
 p = "/verif/seeded/%s/meta.json" % name
 m = json.load(open(p))
 m["verified"] = {"by": "dev/seedcheck.sh in a scratch worktree of /repo",
   "confirmed": "patch applies; go build ./... ok; existing package tests (%s) pass with the change; demonstration passes on the unchanged tree and fails with the change" % pkgs,
   "check_result": res}
-m["round"] = 2
+m["round"] = rnd
 json.dump(m, open(p, "w"), indent=1)
